@@ -23,6 +23,7 @@ import os
 import numpy as np
 
 from vmon import contracts, taps, world
+from vmon import refmodel as R
 
 PROPERTY = 'C17'
 RULE = ('observations from a seeded generator: 2..60 distinct wavelengths in 0.3..30 um (linear, constant-R, '
@@ -54,7 +55,8 @@ REQUIRED = dict(
     classes=['source:array', 'source:text', 'source:hdf5', 'columns:3', 'columns:4', 'order:ascending-wavelength',
              'order:descending-wavelength', 'order:random', 'n:2', 'grid:linear', 'grid:constR', 'grid:irregular',
              'grid:two-instruments', 'widths:overlapping-bins', 'widths:narrow',
-             'second-observation:same-count-and-ends-other-spacing', 'second-observation:columns-3', 'rows-dtype:i'])
+             'second-observation:same-count-and-ends-other-spacing', 'second-observation:columns-3', 'rows-dtype:i',
+             'rows:tied-centres', 'widths:tied-centres'])
 EPS = float(np.finfo(float).eps)
 
 _state = {'last_obs': None, 'last_binner_decl': None, 'ctx': None}
@@ -79,8 +81,8 @@ def in_domain(rows):
     if rows.ndim != 2 or rows.shape[0] < 2 or rows.shape[1] not in (3, 4) or not np.all(np.isfinite(rows)):
         return 'shape-or-non-finite'
     lam = rows[:, 0]
-    if np.any(lam <= 0) or len(np.unique(lam)) != len(lam):
-        return 'wavelengths-not-positive-distinct'
+    if np.any(lam <= 0) or (len(np.unique(lam)) != len(lam) and rows.shape[1] != 4):
+        return 'wavelengths-not-positive-distinct'         # bins that share a centre need their own widths (4 columns)
     if rows.shape[1] == 4:
         if np.any(rows[:, 3] <= 0) or np.any(lam - rows[:, 3] / 2 <= 0):
             return 'width-reaches-zero-wavelength'
@@ -91,6 +93,15 @@ def in_domain(rows):
     return None
 
 
+def canon(lam, width=None, *more):
+    """Order of rows: wavelength descending; rows that share a wavelength (a broad band centred on a channel) by
+    width.  The property fixes each row's content, not the order of tied rows among themselves."""
+    lam = np.asarray(lam, dtype=float)
+    if width is None:
+        return np.argsort(-lam, kind='stable')
+    return np.lexsort(tuple(np.asarray(m, dtype=float) for m in more[::-1]) + (np.asarray(width, dtype=float), -lam))
+
+
 def judge_observation(ctx, obs, rows, source):
     """Decide one loaded observation against the rows it was loaded from."""
     why = in_domain(rows)
@@ -98,7 +109,8 @@ def judge_observation(ctx, obs, rows, source):
         ctx.event('domain-skip:' + why)
         return None
     n, ncol = rows.shape
-    order = np.argsort(rows[:, 0])[::-1]                  # wavelength descending <=> wavenumber ascending
+    tied = len(np.unique(rows[:, 0])) != n
+    order = canon(rows[:, 0], *((rows[:, 3], rows[:, 2], rows[:, 1]) if ncol == 4 else ()))       # wavelength descending <=> wavenumber ascending
     srt = rows[order]
     lam = srt[:, 0]
     wit = dict(source=source, n=n, columns=ncol)
@@ -108,21 +120,27 @@ def judge_observation(ctx, obs, rows, source):
                    np.shape(obs.wavelengthGrid) == (n,), **wit)
     if not ok:
         return None
-    ctx.check('obs:wavenumber-ascending', np.all(np.diff(wn) > 0), wn=wn, **wit)
+    ctx.check('obs:wavenumber-ascending', np.all(np.diff(wn) >= 0) if tied else np.all(np.diff(wn) > 0), wn=wn, **wit)
     ctx.close('obs:wavenumber=1e4/wavelength', wn, 1e4 / lam, 4 * EPS, **wit)
+    # rows that share a wavelength are compared in the canonical order of both sides (identity when there are none)
+    pg = canon(obs.wavelengthGrid, obs.binWidths, obs.errorBar, obs.spectrum) if tied else np.arange(n)
+    if tied:
+        ctx.observe('rows:tied-centres')
     # every value, error bar (and width) is still attached to its own wavelength: the rows are only moved
-    ctx.close('obs:rows-attached', obs.wavelengthGrid, lam, 0.0, what='wavelength', **wit)
-    ctx.close('obs:rows-attached', obs.spectrum, srt[:, 1], 0.0, what='value', **wit)
-    ctx.close('obs:rows-attached', obs.errorBar, srt[:, 2], 0.0, what='error', **wit)
+    ctx.close('obs:rows-attached', np.asarray(obs.wavelengthGrid)[pg], lam, 0.0, what='wavelength', **wit)
+    ctx.close('obs:rows-attached', np.asarray(obs.spectrum)[pg], srt[:, 1], 0.0, what='value', **wit)
+    ctx.close('obs:rows-attached', np.asarray(obs.errorBar)[pg], srt[:, 2], 0.0, what='error', **wit)
     edges = np.asarray(obs.binEdges, dtype=float)
-    bw = np.asarray(obs.binWidths, dtype=float)
+    bw = np.asarray(obs.binWidths, dtype=float)[pg]
+    if ncol == 4 and edges.shape == (2 * n,):
+        edges = edges.reshape(n, 2)[pg].reshape(-1)
     if ncol == 4:
         dl = srt[:, 3]
         ctx.close('obs:widths-4col', bw, 1e4 * dl / lam ** 2, 8 * EPS, **wit)
         if ctx.check('obs:edges-4col', edges.shape == (2 * n,), what='two edges per bin', shape=list(edges.shape), **wit):
             ctx.close('obs:edges-4col', edges[0::2], 1e4 / (lam + dl / 2), 8 * EPS, what='lower', **wit)
             ctx.close('obs:edges-4col', edges[1::2], 1e4 / (lam - dl / 2), 8 * EPS, what='upper', **wit)
-            ctx.check('obs:edges-bracket-centres', np.all(edges[0::2] < wn) and np.all(wn < edges[1::2]), **wit)
+            ctx.check('obs:edges-bracket-centres', np.all(edges[0::2] < wn[pg]) and np.all(wn[pg] < edges[1::2]), **wit)
     else:
         e = midpoint_edges_desc(lam)
         dl = np.abs(np.diff(e))
@@ -221,6 +239,15 @@ def gen_rows(rng, ncol=None, n=None):
         w = np.minimum(w, 1.8 * lam * 0.99)             # lambda - w/2 > 0
         cols.append(w)
     rows = np.column_stack(cols)
+    if ncol == 4 and n >= 3 and rng.random() < 0.15:
+        # a broad band centred exactly on a channel (one to three of them): rows that share a wavelength and differ in
+        # width, value encoding the same wavenumber, their own error bars
+        extra = []
+        for j in rng.choice(n, int(rng.integers(1, min(n, 3) + 1)), replace=False):
+            wb = min(float(w[j] * rng.uniform(2.5, 8.0)), 1.8 * lam[j] * 0.99)
+            extra.append([lam[j], value[j], float(10 ** rng.uniform(-5, -2) * value[j]), wb])
+        rows = np.vstack([rows, np.array(extra)])
+        wkind = 'tied-centres'
     if rng.random() < 0.08 and n <= 9:
         # a table typed by hand: whole numbers, the whole array of integer dtype (wavelengths dividing 10000 so that the
         # value can still encode its own wavenumber exactly)
@@ -243,8 +270,16 @@ def permutations(rng, n):
 
 
 def props_of(obs):
-    return {k: np.array(getattr(obs, k), dtype=float, copy=True)
-            for k in ('wavenumberGrid', 'wavelengthGrid', 'spectrum', 'errorBar', 'binWidths', 'binEdges')}
+    d = {k: np.array(getattr(obs, k), dtype=float, copy=True)
+         for k in ('wavenumberGrid', 'wavelengthGrid', 'spectrum', 'errorBar', 'binWidths', 'binEdges')}
+    n = len(d['wavenumberGrid'])
+    if len(np.unique(d['wavelengthGrid'])) != n:
+        # rows that share a wavelength: compared in canonical order (which of them comes first is not stated)
+        pg = canon(d['wavelengthGrid'], d['binWidths'], d['errorBar'], d['spectrum'])
+        for k in d:
+            d[k] = d[k][pg] if d[k].shape == (n,) else (d[k].reshape(n, 2)[pg].reshape(-1) if d[k].shape == (2 * n,) else d[k])
+        d['_perm'] = pg
+    return d
 
 
 def check_binner(ctx, rng, obs, tag):
@@ -272,6 +307,19 @@ def check_binner(ctx, rng, obs, tag):
     # aligned element by element with the observed values (value column = 1e4/lambda = own wavenumber)
     ctx.close('binner:model-aligned-with-observation', binned[inside], np.asarray(obs.spectrum)[inside], 1e-12,
               atol=0.5 * D * (1 + 1e-9), tag=tag, D=D)
+    # a model that is NOT linear in wavenumber tells the widths apart as well: element i of the result has to be the
+    # overlap-weighted mean over the bin of observation row i (its own centre AND its own width)
+    nat = np.sort(native)
+    quad = (nat / nat[0]) ** 2
+    if rng.random() < 0.5:
+        p2 = rng.permutation(len(nat))
+        r2 = b.bindown(nat[p2], quad[p2])
+    else:
+        r2 = b.bindown(nat, quad)
+    want, _, tot = R.overlap_mean(nat - D / 2, nat + D / 2, quad, wn - bw / 2, wn + bw / 2)
+    got2 = np.asarray(r2[1], dtype=float)
+    ctx.close('binner:model-aligned-with-observation', got2[inside], want[inside], 1e-10, tag=tag, model='quadratic',
+              tied=bool(len(np.unique(wn)) != len(wn)))
     return binned
 
 
@@ -285,6 +333,8 @@ def run_source(ctx, rng, source, rows, load):
         ctx.observe('order:' + oname)
         got = props_of(obs)
         binned = check_binner(ctx, rng, obs, oname)
+        if '_perm' in got:
+            binned = binned[got.pop('_perm')]
         if base is None:
             base = (got, binned)
             continue
@@ -384,13 +434,16 @@ def wl_hdf5(ctx, rng):
                 g.create_dataset('native_wngrid', data=np.linspace(100, 200, 7))   # other datasets are ignored
         obs = TaurexSpectrum(path)
         os.remove(path)
-        o = np.argsort(t[:, 0])
+        # ascending wavenumber; rows that share a centre in the canonical order of both sides
+        o = np.lexsort((t[:, 1], t[:, 2], t[:, 3], t[:, 0]))
         ts = t[o]
         w = dict(n=len(t))
-        ctx.close('hdf5:columns-as-written', obs.wavenumberGrid, ts[:, 0], 4 * EPS, what='wavenumber', **w)
-        ctx.close('hdf5:columns-as-written', obs.spectrum, ts[:, 1], 0.0, what='spectrum', **w)
-        ctx.close('hdf5:columns-as-written', obs.errorBar, ts[:, 2], 0.0, what='noise', **w)
-        ctx.close('hdf5:columns-as-written', obs.binWidths, ts[:, 3], 16 * EPS, what='wavenumber width', **w)
+        pg = np.lexsort((np.asarray(obs.spectrum), np.asarray(obs.errorBar), np.asarray(obs.binWidths),
+                         np.asarray(obs.wavenumberGrid)))
+        ctx.close('hdf5:columns-as-written', np.asarray(obs.wavenumberGrid)[pg], ts[:, 0], 4 * EPS, what='wavenumber', **w)
+        ctx.close('hdf5:columns-as-written', np.asarray(obs.spectrum)[pg], ts[:, 1], 0.0, what='spectrum', **w)
+        ctx.close('hdf5:columns-as-written', np.asarray(obs.errorBar)[pg], ts[:, 2], 0.0, what='noise', **w)
+        ctx.close('hdf5:columns-as-written', np.asarray(obs.binWidths)[pg], ts[:, 3], 16 * EPS, what='wavenumber width', **w)
         return obs
     run_source(ctx, rng, 'hdf5', tab, load)
     # observed only (outside the statement): a file without instrument output
